@@ -51,6 +51,7 @@ HANDLED = (b"version", b"verack", b"ping")     # the property's "handled automat
 # never blocks; once a run has blocked, this process assumes a lock-based variant and waits only BLOCKING_TIMEOUT.
 GRANT_TIMEOUT = 0.5
 BLOCKING_TIMEOUT = 0.004
+BLOCKING_SWEEP_LIMIT = 120
 _TMO = {"cur": GRANT_TIMEOUT}
 
 
@@ -111,7 +112,7 @@ class _Baton:
     """grant(t): thread t performs the operation it is paused in front of and runs on until it is about to
     perform its next instrumented operation (or has finished)"""
 
-    def __init__(self, n, timeout):
+    def __init__(self, n):
         self.n = n
         self.go = [_sem() for _ in range(n)]
         self.back = [_sem() for _ in range(n)]
@@ -121,7 +122,6 @@ class _Baton:
         self.trace = []
         self.ident = {}
         self.nblocked = 0
-        self.timeout = timeout
 
     # ---- called by the receive threads, BEFORE the operation ----
     def point(self, kind):
@@ -254,10 +254,10 @@ def _frame(c, p, magic):
 class _Run:
     """one Node with n scripted peers whose receive threads stand in front of their first scheduling point"""
 
-    def __init__(self, progs, recv_pt, timeout=None):
+    def __init__(self, progs, recv_pt):
         import bits.p2p as p2p
         self.n = n = len(progs)
-        self.baton = b = _Baton(n, timeout)
+        self.baton = b = _Baton(n)
         _BATON[0] = b
         self.errors = [None] * n
         node = self.node = p2p.Node()                       # __init__ opens no socket
@@ -436,6 +436,9 @@ def _impl_sweep(progs, limit, seed, recv_pt):
     seen = {}
     nrun = 0
     for s in scheds:
+        if _TMO["cur"] != GRANT_TIMEOUT and nrun >= BLOCKING_SWEEP_LIMIT:
+            exhaustive = False          # a variant that blocks costs a timeout per episode: settle for a prefix
+            break
         r = _Run(progs, recv_pt)
         r.execute(s, rounds)
         raw = r.observe_raw()
@@ -668,11 +671,11 @@ def _judge(progs, q, sent, stored, errors, trace):
     for t in range(n):
         if b"".join(sent[t]) != b"".join(exp[t][1]):
             try:
-                g = [c for (c, _) in w.split_frames(b"".join(sent[t]))]
+                g = [(c, p.hex()) for (c, p) in w.split_frames(b"".join(sent[t]))]
             except Exception:
                 g = "unframed bytes"
             return "peer %d was sent %r, expected the replies %r (verack per version, pong with the same nonce per " \
-                   "ping, on the peer's own socket)%s" % (t, g, [c for (c, _) in w.split_frames(b"".join(exp[t][1]))], where)
+                   "ping, on the peer's own socket)%s" % (t, g, [(c, p.hex()) for (c, p) in w.split_frames(b"".join(exp[t][1]))], where)
         if stored[t] != exp[t][2]:
             return "peer data of peer %d is %r, expected %r%s" % (t, stored[t], exp[t][2], where)
     return None
@@ -785,11 +788,11 @@ def gen_cases(rng, tier):
         out.append(case("sweep-3x1-fine-" + _cls_of([[x] for x in tr]), "sweep", _progs([[x] for x in tr]), 10 ** 6, 0, FINE))
     # --- sampled: 3 threads x 3 messages (and 2 x 3, 3 x 2) ---
     A2 = A + ("ping-short",)
-    for i in range(300 if T else 12):
+    for i in range(240 if T else 12):
         shape = [(3, 3), (3, 3), (2, 3), (3, 2)][i % 4]
         ks = [[rng.choice(A2) for _ in range(shape[1])] for _ in range(shape[0])]
         out.append(case("sample-%dx%d-%s" % (shape[0], shape[1], _cls_of(ks)), "sweep", _progs(ks),
-                        1500 if T else 200, rng.randrange(2 ** 30), i % 3 == 0))
+                        1000 if T else 200, rng.randrange(2 ** 30), i % 3 == 0))
     # --- single schedules, compared with the model's run of the SAME schedule ---
     for i in range(4000 if T else 500):
         nthreads = rng.choice([2, 2, 3, 3, 3, 4])
